@@ -37,6 +37,7 @@
 EXTENDS Integers, Sequences, FiniteSets, TLC
 
 CONSTANTS Calls, Hashes, MaxLanes, Kinds, LaneCounts, QSizes, HashBits,
+          Fails, Pres,   \* values of the inv flags explored (fail: callee returns an error; pre: context ended before the call)
           FixSlot, FixPcAdd, FixPopAnyway
 
 VARIABLES
@@ -83,6 +84,8 @@ SlotModel(h, n) ==
 \* hash values of the exhaustive configurations (cfg: Hashes <- ModelHashes): the minimum
 \* integer, its neighbour, -1, 0 and a positive value
 ModelHashes  == {MinH, -1, 2}
+ModelHashes2 == {MinH, -1}
+ModelHashesGen == {MinH, MinH + 1, -3, -2, -1, 0, 1, 2, 3, -MinH - 1}   \* plan generation
 ModelHashes5 == {MinH, MinH + 1, -1, 0, 2}
 
 (* ---- actions ----------------------------------------------------------- *)
@@ -182,8 +185,9 @@ Cancel(c) ==
   /\ UNCHANGED <<kind, nl, qsize, slot, started, up, qclosed, stopst, queue, cs, cw, rj, info, lane,
                  late, rv, acc, sto, nst>>
 
-StopI ==    \* a second Stop is a no-op (stopOnce)
-  /\ stopst' = IF stopst = "no" THEN "ing" ELSE stopst
+StopI ==    \* (a second Stop is a no-op in all four executors: stopOnce)
+  /\ stopst = "no"
+  /\ stopst' = "ing"
   /\ UNCHANGED <<kind, nl, qsize, slot, started, up, qclosed, queue, cs, cw, rj, info, lane, ctxd,
                  late, rv, acc, sto, nst>>
 
@@ -194,7 +198,7 @@ CloseLane(l) ==
                  late, rv, acc, sto, nst>>
 
 StopR ==
-  /\ stopst # "no"
+  /\ stopst = "ing"
   /\ \A l \in LaneIds : Used(l) => qclosed[l]
   /\ stopst' = "done"
   /\ UNCHANGED <<kind, nl, qsize, slot, started, up, qclosed, queue, cs, cw, rj, info, lane, ctxd,
@@ -227,23 +231,31 @@ Do(a) ==
 
 Step(a) == Do(a) /\ last' = a
 
-Replies == [k : {"res", "ctx", "full", "closed"}, v : Calls \cup {0}, e : BOOLEAN]
+RetCands(c) == {R(rj[c], 0, FALSE), R("res", c, info[c].fail), R("ctx", c, FALSE), R("closed", 0, FALSE)}
 
 NextCall == IF \E c \in Calls : cw[c] = "idle"
             THEN {CHOOSE c \in Calls : cw[c] = "idle" /\ \A d \in Calls : cw[d] = "idle" => c <= d}
             ELSE {}
+\* the hash matters for mline only
+HashChoice == IF kind = "mline" THEN Hashes ELSE {CHOOSE h \in Hashes : TRUE}
+\* a cancellation is visible only while the caller waits or the call is queued
+CancelMatters(c) == cw[c] \in {"called", "wait", "rej"} \/ cs[c] = "queued"
 
-ExtActs ==   \* what the environment (callers, callee, owner) decides
-       {[op |-> "run"], [op |-> "stopi"]}
-  \cup [op : {"inv"}, c : NextCall, h : Hashes, fail : BOOLEAN, pre : BOOLEAN]
-  \cup [op : {"end", "cancel"}, c : Calls]
-IntActs ==   \* what happens by itself
-       [op : {"enq"}, c : Calls, r : {"ok", "full", "closed"}, l : LaneIds]
-  \cup [op : {"start", "skip"}, c : Calls]
-  \cup [op : {"ret"}, c : Calls, r : Replies]
-  \cup [op : {"close", "exit"}, l : LaneIds]
-  \cup {[op |-> "stopr"]}
-Acts == ExtActs \cup IntActs
+ExtNext ==   \* what the environment (owner, callers, callee) decides
+  \/ Step([op |-> "run"])
+  \/ Step([op |-> "stopi"])
+  \/ \E c \in NextCall, h \in HashChoice, f \in Fails, p \in Pres :
+       Step([op |-> "inv", c |-> c, h |-> h, fail |-> f, pre |-> p])
+  \/ \E c \in Calls : \/ Step([op |-> "end", c |-> c])
+                       \/ (CancelMatters(c) /\ Step([op |-> "cancel", c |-> c]))
+IntNext ==   \* what happens by itself
+  \/ Step([op |-> "stopr"])
+  \/ \E c \in Calls :
+       \/ Step([op |-> "start", c |-> c])
+       \/ Step([op |-> "skip", c |-> c])
+       \/ \E r \in {"ok", "full", "closed"}, l \in LaneIds : Step([op |-> "enq", c |-> c, r |-> r, l |-> l])
+       \/ \E r \in RetCands(c) : Step([op |-> "ret", c |-> c, r |-> r])
+  \/ \E l \in LaneIds : Step([op |-> "close", l |-> l]) \/ Step([op |-> "exit", l |-> l])
 
 InitWith(k, n, q, sl) ==
   /\ kind = k /\ nl = n /\ qsize = q /\ slot = sl
@@ -269,10 +281,24 @@ Init == \E k \in Kinds, q \in QSizes :
           \E n \in (IF k = "mline" THEN LaneCounts ELSE {1}) :
             InitWith(k, n, q, [h \in Hashes |-> IF k = "mline" THEN SlotModel(h, n) ELSE 0])
 
-Next == \E a \in Acts : Step(a)
+Next == ExtNext \/ IntNext
+\* plan generation mirrors the executor: the environment moves only when nothing moves by itself
+\* (RandomElement keeps `inv` one successor among the others instead of |Hashes| * 4, starts the
+\* consumers early most of the time and keeps Stop from ending most plans at once)
+GenExt ==
+  IF ~started /\ RandomElement(1..10) <= 7 THEN Step([op |-> "run"])
+  ELSE
+    \/ Step([op |-> "run"])
+    \/ (stopst = "no" /\ (RandomElement(1..4) = 1 \/ NextCall = {})) /\ Step([op |-> "stopi"])
+    \/ \E c \in NextCall :
+         Step([op |-> "inv", c |-> c, h |-> RandomElement(HashChoice), fail |-> RandomElement(Fails),
+               pre |-> (TRUE \in Pres /\ RandomElement(1..5) = 1)])
+    \/ \E c \in Calls : \/ Step([op |-> "end", c |-> c])
+                         \/ (CancelMatters(c) /\ RandomElement(1..2) = 1 /\ Step([op |-> "cancel", c |-> c]))
+GenNext == IF ENABLED IntNext THEN IntNext ELSE GenExt
+GenSpec == Init /\ [][GenNext]_allvars
 Spec == Init /\ [][Next]_allvars
 
-IntNext == \E a \in IntActs : Step(a)
 FairSpec ==
   /\ Spec
   /\ WF_allvars(IntNext)
@@ -326,6 +352,18 @@ NoLateAccept == \A c \in Calls : late[c] => cs[c] = "none"
 (* no lane goroutine leaves before Stop, none leaves a backlog behind (line, mline, runq) *)
 ExitSound == \A l \in LaneIds : (started /\ Used(l) /\ ~up[l]) => qclosed[l]
 NoOrphan == kind # "pchan" => \A c \in Calls : cs[c] # "dropped"
+
+(* A state in which nothing happens by itself: what the real executor must *)
+(* have reached when every goroutine is parked (used by the plan           *)
+(* generator and by the `quiet` events of recorded traces).  It says that  *)
+(* every submission was answered or queued, every available reply was      *)
+(* delivered, no live idle lane has work, and a closed idle lane is gone.  *)
+Quiescent ==
+  /\ stopst # "ing"
+  /\ \A c \in Calls :
+       /\ cw[c] \notin {"called", "rej"}
+       /\ cw[c] = "wait" => ~(cs[c] = "done" \/ ctxd[c] \/ (kind = "pchan" /\ qclosed[0]))
+  /\ \A x \in LaneIds : (up[x] /\ ~Busy(x)) => (queue[x] = <<>> /\ ~qclosed[x])
 
 (* liveness, under FairSpec *)
 Completes  == \A c \in Calls : (cs[c] = "queued" /\ kind # "pchan") ~> (cs[c] \in {"done", "skipped"})
